@@ -141,6 +141,13 @@ pub struct Knobs {
     pub p_conflict_handed: u64,
     pub p_batch: u64,
     pub w_actions: [u64; 7],
+    /// percent of generated transactions that join coin outputs of several pooled
+    /// transactions (a node with more than one pooled parent); 0 = off
+    pub p_join: u64,
+    /// percent: rivals of pooled transactions that keep one contested resource (blob id,
+    /// coin) and fund themselves from another pooled transaction's input, more blob
+    /// uploads; 0 = off
+    pub p_rival: u64,
 }
 
 pub struct ExtractReq {
@@ -973,6 +980,15 @@ impl<'a> Sim<'a> {
                                     todo.extend(self.parents.get(&a).cloned().unwrap_or_default());
                                 }
                             }
+                            let orphaned_in_part = self.children_of(id).iter().any(|c| {
+                                !idset.contains(c)
+                                    && self.parents[c]
+                                        .iter()
+                                        .any(|p| p != id && self.pool.contains(p) && !idset.contains(p))
+                            });
+                            if orphaned_in_part {
+                                self.ctx.probe("commit_one_of_several_pooled_parents");
+                            }
                             self.model_remove(id);
                             f.included.insert(*id);
                             f.committed.insert(*id);
@@ -1328,6 +1344,9 @@ impl<'a> Sim<'a> {
         }
         if !ps.is_empty() {
             self.ctx.probe("admitted_dependent");
+        }
+        if ps.len() > 1 {
+            self.ctx.probe("admitted_with_several_pooled_parents");
         }
         self.pool.insert(*id);
         self.parents.insert(*id, ps);
